@@ -58,20 +58,20 @@ RgbToXyzFrom(xr, yr, xg, yg, xb, yb, white) ==
 SrgbToXyz == RgbToXyzFrom(FxRat(64, 100), FxRat(33, 100), FxRat(30, 100), FxRat(60, 100), FxRat(15, 100), FxRat(6, 100), WhiteD65)
 
 (* Oklab, Ottosson 2020 *)
-OkM1 == << FxDec(1, 0, <<8189, 3301, 1>>), FxDec(1, 0, <<3618, 6674, 24>>), FxDec(-1, 0, <<1288, 5971, 37>>),
-           FxDec(1, 0, <<329, 8454, 36>>), FxDec(1, 0, <<9293, 1187, 15>>), FxDec(1, 0, <<361, 4563, 87>>),
-           FxDec(1, 0, <<482, 30, 18>>), FxDec(1, 0, <<2643, 6626, 91>>), FxDec(1, 0, <<6338, 5170, 70>>) >>
+OkM1 == << FxDec(1, 0, <<8189, 3301, 100>>), FxDec(1, 0, <<3618, 6674, 2400>>), FxDec(-1, 0, <<1288, 5971, 3700>>),
+           FxDec(1, 0, <<329, 8454, 3600>>), FxDec(1, 0, <<9293, 1187, 1500>>), FxDec(1, 0, <<361, 4563, 8700>>),
+           FxDec(1, 0, <<482, 30, 1800>>), FxDec(1, 0, <<2643, 6626, 9100>>), FxDec(1, 0, <<6338, 5170, 7000>>) >>
 (* the same matrix recalculated for CSS Color 4 (w3c/csswg-drafts issue 6642) *)
 OkM1Css == << FxDec(1, 0, <<8190, 2243, 7996, 7030>>), FxDec(1, 0, <<3619, 626, 52, 8904>>), FxDec(-1, 0, <<1288, 7378, 1520, 9879>>),
               FxDec(1, 0, <<329, 8365, 3932, 3885>>), FxDec(1, 0, <<9292, 8686, 1586, 3434>>), FxDec(1, 0, <<361, 4466, 6350, 6424>>),
               FxDec(1, 0, <<481, 7718, 9359, 6242>>), FxDec(1, 0, <<2642, 3953, 1752, 7308>>), FxDec(1, 0, <<6335, 4782, 8469, 4309>>) >>
-OkM2 == << FxDec(1, 0, <<2104, 5425, 53>>), FxDec(1, 0, <<7936, 1778, 50>>), FxDec(-1, 0, <<40, 7204, 68>>),
-           FxDec(1, 1, <<9779, 9849, 51>>), FxDec(-1, 2, <<4285, 9220, 50>>), FxDec(1, 0, <<4505, 9370, 99>>),
-           FxDec(1, 0, <<259, 403, 71>>), FxDec(1, 0, <<7827, 7176, 62>>), FxDec(-1, 0, <<8086, 7576, 60>>) >>
+OkM2 == << FxDec(1, 0, <<2104, 5425, 5300>>), FxDec(1, 0, <<7936, 1778, 5000>>), FxDec(-1, 0, <<40, 7204, 6800>>),
+           FxDec(1, 1, <<9779, 9849, 5100>>), FxDec(-1, 2, <<4285, 9220, 5000>>), FxDec(1, 0, <<4505, 9370, 9900>>),
+           FxDec(1, 0, <<259, 403, 7100>>), FxDec(1, 0, <<7827, 7176, 6200>>), FxDec(-1, 0, <<8086, 7576, 6000>>) >>
 (* linear sRGB -> LMS, Ottosson (updated 2021-01-25) *)
-OkRgbToLms == << FxDec(1, 0, <<4122, 2147, 8>>), FxDec(1, 0, <<5363, 3253, 63>>), FxDec(1, 0, <<514, 4599, 29>>),
-                 FxDec(1, 0, <<2119, 349, 82>>), FxDec(1, 0, <<6806, 9954, 51>>), FxDec(1, 0, <<1073, 9695, 66>>),
-                 FxDec(1, 0, <<883, 246, 19>>), FxDec(1, 0, <<2817, 1883, 76>>), FxDec(1, 0, <<6299, 7870, 5>>) >>
+OkRgbToLms == << FxDec(1, 0, <<4122, 2147, 800>>), FxDec(1, 0, <<5363, 3253, 6300>>), FxDec(1, 0, <<514, 4599, 2900>>),
+           FxDec(1, 0, <<2119, 349, 8200>>), FxDec(1, 0, <<6806, 9954, 5100>>), FxDec(1, 0, <<1073, 9695, 6600>>),
+           FxDec(1, 0, <<883, 246, 1900>>), FxDec(1, 0, <<2817, 1883, 7600>>), FxDec(1, 0, <<6299, 7870, 500>>) >>
 
 (* constants that are expensive to derive are computed once per trace run and carried in a variable *)
 Consts == [ rgb2xyz |-> SrgbToXyz, xyz2rgb |-> Inv3(SrgbToXyz), okm2inv |-> Inv3(OkM2) ]
@@ -142,4 +142,49 @@ PolarBits(rect, pol) ==
   IN IF FxIsNeg(pol[2]) /\ FxLt(FxEps(40), FxAbs(pol[2])) THEN 0      \* chroma must not be negative
      ELSE Min3i(AgreeBits(rect[1], pol[1], AtLeast(FxAbs(pol[1]), 30)),
                 AgreeBits(rect[2], FxMul(pol[2], sc[2]), s), AgreeBits(rect[3], FxMul(pol[2], sc[1]), s))
+
+-----------------------------------------------------------------------------
+(* Hexcone models (A. R. Smith, "Color gamut transform pairs", 1978; HWB: Smith & Lyons 1996), as
+   relations between an RGB triple in [0,1] and the cylindrical coordinates.  With M = max, m = min, d = M - m:
+     HSV: V = M, S M = d;   HSL: L = (M + m)/2, S (1 - |2L - 1|) = d;   HWB: W = (1 - S) V, B = 1 - V
+     hue/60 = ((G - B)/d) mod 6 if M = R;  (B - R)/d + 2 if M = G;  (R - G)/d + 4 if M = B   (any maximal channel) *)
+Max3(v) == FxMax(v[1], FxMax(v[2], v[3]))
+Min3(v) == FxMin(v[1], FxMin(v[2], v[3]))
+(* agreement of the hue h (degrees) with the RGB triple: (h/60) d == off d + num  (mod 6 d), measured against M *)
+HueBits(rgb, h) ==
+  LET mx == Max3(rgb)  d == FxSub(mx, Min3(rgb))
+      off == IF rgb[1] = mx THEN 0 ELSE IF rgb[2] = mx THEN 2 ELSE 4
+      num == IF rgb[1] = mx THEN FxSub(rgb[2], rgb[3]) ELSE IF rgb[2] = mx THEN FxSub(rgb[3], rgb[1]) ELSE FxSub(rgb[1], rgb[2])
+      hd == FxMul(FxDivInt(FxMod360(h), 60), d)                 \* (h/60) d with h/60 in [0, 6)
+      e == FxAdd(FxMulInt(d, off), num)                         \* in (-d, 5 d]
+      six == FxMulInt(d, 6)
+      diff0 == FxSub(hd, e)
+      \* reduce modulo 6 d into [-3 d, 3 d]
+      diff1 == IF FxLt(FxMulInt(d, 3), diff0) THEN FxSub(diff0, six) ELSE IF FxLt(diff0, FxNeg(FxMulInt(d, 3))) THEN FxAdd(diff0, six) ELSE diff0
+  IN AgreeBits(diff1, FxZero, AtLeast(mx, 30))
+HsvBits(rgb, hsv) ==
+  LET mx == Max3(rgb)  d == FxSub(mx, Min3(rgb))  sc == AtLeast(mx, 30)
+  IN Min3i(HueBits(rgb, hsv[1]), AgreeBits(FxMul(hsv[2], mx), d, sc), AgreeBits(hsv[3], mx, sc))
+HslBits(rgb, hsl) ==
+  LET mx == Max3(rgb)  mn == Min3(rgb)  d == FxSub(mx, mn)
+      l2 == FxAdd(mx, mn)                                       \* 2 L
+      span == FxSub(FxOne, FxAbs(FxSub(FxMulInt(hsl[3], 2), FxOne)))   \* 1 - |2L - 1|
+  IN Min3i(HueBits(rgb, hsl[1]), AgreeBits(FxMul(hsl[2], span), d, AtLeast(FxOne, 1)), AgreeBits(FxMulInt(hsl[3], 2), l2, AtLeast(FxOne, 1)))
+(* W = (1 - S) V, B = 1 - V, hue identical *)
+HwbFromHsvBits(hsv, hwb) ==
+  Min3i(AgreeBits(FxMod360(hwb[1]), FxMod360(hsv[1]), Fx360T),
+        AgreeBits(hwb[2], FxMul(FxSub(FxOne, hsv[2]), hsv[3]), AtLeast(FxOne, 1)),
+        AgreeBits(hwb[3], FxSub(FxOne, hsv[3]), AtLeast(FxOne, 1)))
+(* HSV and HSL describe the same (M, m): M = V = L + S_l min(L, 1 - L), m = V (1 - S_v) = L - S_l min(L, 1 - L) *)
+HsvHslBits(hsv, hsl) ==
+  LET c == FxMul(hsl[2], FxMin(hsl[3], FxSub(FxOne, hsl[3])))
+  IN Min3i(AgreeBits(FxMod360(hsl[1]), FxMod360(hsv[1]), Fx360T),
+           AgreeBits(hsv[3], FxAdd(hsl[3], c), AtLeast(FxOne, 1)),
+           AgreeBits(FxMul(hsv[3], FxSub(FxOne, hsv[2])), FxSub(hsl[3], c), AtLeast(FxOne, 1)))
+
+(* relative luminance: luma = Y; a luma converted back is the grey of that luminance, Y times the white point *)
+LumaFromXyzBits(xyz, luma) == AgreeBits(luma[1], xyz[2], AtLeast(FxAbs(xyz[2]), 30))
+XyzFromLumaBits(luma, xyz) ==
+  LET sc == AtLeast(FxAbs(luma[1]), 30)
+  IN Min3i(AgreeBits(xyz[1], FxMul(luma[1], WhiteD65[1]), sc), AgreeBits(xyz[2], luma[1], sc), AgreeBits(xyz[3], FxMul(luma[1], WhiteD65[3]), sc))
 =============================================================================
